@@ -230,6 +230,10 @@ def run_shard(args) -> Dict[str, Any]:
 
             phases = [Phase.generate, Phase.shrink]
 
+            if os.environ.get('VERIF_NO_SHRINK'):
+                # sensitivity runs only need to know THAT a check fires
+                phases = [Phase.generate]
+
             @hypothesis.seed(seed * 100003 + _family_index(mod, famname) * 997
                              + shard)
             @settings(max_examples=budget, database=None, deadline=None,
@@ -257,6 +261,70 @@ def run_shard(args) -> Dict[str, Any]:
                 'violation': None, 'violations': [],
                 'error': 'shard %d of %s: %s' % (shard, famname,
                                                  traceback.format_exc())}
+
+
+def _shard_child(task, conn) -> None:
+    try:
+        conn.send(run_shard(task))
+    finally:
+        conn.close()
+
+
+def _dead_result(task, why: str) -> Dict[str, Any]:
+    return {'family': task[1], 'evaluations': 0, 'nontrivial': [],
+            'classes': {}, 'samples': {}, 'known_hits': {},
+            'violation': None, 'violations': [],
+            'error': 'shard %d of %s: %s' % (task[4], task[1], why)}
+
+
+def run_tasks(tasks, nproc: int, tier: str) -> List[Dict[str, Any]]:
+    """One fresh process per shard, at most nproc at a time.  A worker that
+    dies (killed, out of memory) or overruns the hard limit yields a harness
+    error instead of hanging the run"""
+
+    from multiprocessing.connection import wait
+
+    ctx = mp.get_context('fork')
+    hard = float(os.environ.get('VERIF_SHARD_LIMIT',
+                                '1500' if tier == 'quick' else '7200'))
+    pending = list(tasks)
+    running: Dict[Any, Tuple[Any, Any, float]] = {}
+    results: List[Dict[str, Any]] = []
+
+    while pending or running:
+        while pending and len(running) < nproc:
+            task = pending.pop(0)
+            parent, child = ctx.Pipe(duplex=False)
+            proc = ctx.Process(target=_shard_child, args=(task, child))
+            proc.start()
+            child.close()
+            running[parent] = (proc, task, time.time())
+
+        ready = wait(list(running), timeout=1.0)
+
+        for conn in list(running):
+            proc, task, started = running[conn]
+
+            if conn in ready:
+                try:
+                    results.append(conn.recv())
+                except (EOFError, OSError):
+                    proc.join(5)
+                    results.append(_dead_result(
+                        task, 'worker died without a result (exit code %r)'
+                        % proc.exitcode))
+                proc.join(5)
+                conn.close()
+                del running[conn]
+            elif time.time() - started > hard:
+                proc.kill()
+                proc.join(5)
+                conn.close()
+                del running[conn]
+                results.append(_dead_result(
+                    task, 'exceeded the hard limit of %.0f s' % hard))
+
+    return results
 
 
 def write_replay(prop: str, famname: str, viol: Dict[str, Any]) -> str:
@@ -294,6 +362,10 @@ def replay(prop: str, path: str) -> int:
         print('VIOLATION property=%s replay=%s' % (prop, path))
         return 1
 
+    if stats.fatal:
+        print('HARNESS-ERROR:', stats.fatal, file=sys.stderr)
+        return 2
+
     if stats.known_hits:
         for idx in stats.known_hits:
             k = stats.known[idx]
@@ -328,10 +400,7 @@ def main(prop: str, tier: str, seed: int, only: Optional[str] = None,
             tasks.append((prop, fam.name, tier, seed, shard, nshards, per))
 
     nproc = min(len(tasks), int(os.environ.get('VERIF_JOBS', '16')))
-    ctx = mp.get_context('fork')
-
-    with ctx.Pool(nproc, maxtasksperchild=1) as pool:
-        results = list(pool.imap_unordered(run_shard, tasks, chunksize=1))
+    results = run_tasks(tasks, nproc, tier)
 
     errors = [r['error'] for r in results if r['error']]
     evaluations = sum(r['evaluations'] for r in results)
